@@ -51,6 +51,64 @@ type Expr struct {
 	f      float64 // const FP
 	name   string  // var
 	id     int64
+	h1, h2 uint64 // memoized structural hash (0 = not computed)
+}
+
+type exprKey struct{ a, b uint64 }
+
+func mix(h, v uint64) uint64 {
+	h ^= v + 0x9e3779b97f4a7c15 + (h << 6) + (h >> 2)
+	h *= 0xff51afd7ed558ccd
+	h ^= h >> 33
+	return h
+}
+
+func hashStr(s string, seed uint64) uint64 {
+	h := seed
+	for i := 0; i < len(s); i++ {
+		h = (h ^ uint64(s[i])) * 1099511628211
+	}
+	return h
+}
+
+// key returns a 128-bit structural hash of e (equal structure => equal key).
+func (e *Expr) key() exprKey {
+	if e.h1 != 0 || e.h2 != 0 {
+		return exprKey{e.h1, e.h2}
+	}
+	a := hashStr(e.op, 14695981039346656037)
+	b := hashStr(e.op, 0x2545F4914F6CDD1D)
+	a = mix(a, uint64(e.sort.k)<<8|uint64(e.sort.w))
+	b = mix(b, uint64(e.sort.w)<<8|uint64(e.sort.k))
+	switch e.op {
+	case "const":
+		v := e.bv
+		if e.sort.k == sBool {
+			if e.b {
+				v = 1
+			}
+		} else if e.sort.k != sBV {
+			v = math.Float64bits(e.f)
+		}
+		a, b = mix(a, v), mix(b, ^v)
+	case "var":
+		a, b = mix(a, hashStr(e.name, 7)), mix(b, hashStr(e.name, 13))
+	default:
+		for _, p := range e.params {
+			a, b = mix(a, uint64(p)), mix(b, uint64(p)+77)
+		}
+		for _, c := range e.args {
+			k := c.key()
+			a, b = mix(a, k.a), mix(b, k.b)
+		}
+	}
+	if a == 0 && b == 0 {
+		a = 1
+	}
+	if e.op != "const" { // shared constants are not written to (races)
+		e.h1, e.h2 = a, b
+	}
+	return exprKey{a, b}
 }
 
 var exprCounter int64
